@@ -19,6 +19,7 @@ import (
 	"strings"
 	"sync"
 	"sync/atomic"
+	"syscall"
 	"time"
 	"unsafe"
 )
@@ -80,7 +81,15 @@ type Ctx struct {
 // recovered nor killed, and would make the check hang. Every Range worker therefore notes which index
 // it is working on and when (in ticks of a coarse clock); a monitor reports the case as a violation
 // ("the call does not return") once it has been running for VERIF_HANG_S seconds (default 120, thorough 600), writes
-// the evidence and ends the process with status 1. Hand-rolled worker loops use Track/Untrack.
+// the evidence and ends the process with status 1. Hand-rolled worker loops use Track/Untrack (and Beat between the
+// library calls of one long case).
+//
+// The clock is not the wall clock: on a loaded machine (other checks running next to this one) a legitimate case takes
+// several times longer, and a wall-clock limit would then report a hang that is not one. A tick is a millisecond of
+// processor time *per busy worker*: each second the monitor looks at the processor time the process consumed and
+// advances the clock by min(1 s, consumed / busy workers) - a stuck worker burns its share, so its case ages at the
+// rate at which the process is actually being run (never slower than 1/20 of real time, so that a worker that sleeps
+// forever is still reported).
 
 type wslot struct {
 	since atomic.Int64 // tick at which the current case started; 0 = idle
@@ -108,6 +117,22 @@ func Track(w int, idx int64, desc func() string) {
 	s.since.Store(wtick.Load() + 1)
 }
 
+// Beat notes progress within a tracked case (a library call returned): the case's age starts again.
+func Beat(w int) {
+	s := &wslots[w%len(wslots)]
+	if s.since.Load() != 0 {
+		s.since.Store(wtick.Load() + 1)
+	}
+}
+
+func cpuMillis() int64 {
+	var ru syscall.Rusage
+	if syscall.Getrusage(syscall.RUSAGE_SELF, &ru) != nil {
+		return 0
+	}
+	return (ru.Utime.Sec+ru.Stime.Sec)*1000 + int64(ru.Utime.Usec+ru.Stime.Usec)/1000
+}
+
 // Untrack notes that the worker is idle.
 func Untrack(w int) { wslots[w%len(wslots)].since.Store(0) }
 
@@ -122,9 +147,26 @@ func (c *Ctx) watchdog() {
 	if v, err := strconv.Atoi(os.Getenv("VERIF_HANG_S")); err == nil && v > 0 {
 		limit = int64(v)
 	}
+	limit *= 1000
+	lastCPU := cpuMillis()
 	for {
 		time.Sleep(time.Second)
-		now := wtick.Add(1)
+		busy := int64(0)
+		for w := range wslots {
+			if wslots[w].since.Load() != 0 {
+				busy++
+			}
+		}
+		cpu := cpuMillis()
+		adv := int64(1000)
+		if busy > 0 && (cpu-lastCPU)/busy < adv {
+			adv = (cpu - lastCPU) / busy
+		}
+		if adv < 50 {
+			adv = 50
+		}
+		lastCPU = cpu
+		now := wtick.Add(adv)
 		for w := range wslots {
 			s := &wslots[w]
 			since := s.since.Load()
@@ -156,7 +198,7 @@ func (c *Ctx) watchdog() {
 				}
 			}
 			c.Report(Violation{Fingerprint: "non-termination|" + site, Order: idx, Scope: "watchdog", Input: in,
-				Observed: fmt.Sprintf("a library call made for this case has not returned after %d s (innermost library frame of a running goroutine: %s)", limit, site),
+				Observed: fmt.Sprintf("a library call made for this case has not returned after %d s of processor time (innermost library frame of a running goroutine: %s)", limit/1000, site),
 				Expected: "every call returns (a value or an error)",
 				Explain:  "the worker goroutine cannot be stopped; the run ends here with what was checked so far"})
 			c.capped.Store(true)
